@@ -225,53 +225,101 @@ fn gen_op(r: &mut Rng, pool: &Pool, mode: &str) -> Op {
     op
 }
 
+/// Parent: one child process per trace file (in parallel). The crate's code runs only in the
+/// children; a child that dies leaves its trace (flushed per record, with a "pre" record in front
+/// of every call) and the parent reports the abort as data.
 pub fn run(cfg: DriveCfg) -> i32 {
     std::fs::create_dir_all(&cfg.out_dir).unwrap();
+    let exe = std::env::current_exe().unwrap();
+    let mut children = vec![];
+    for file in 0..cfg.files {
+        let c = std::process::Command::new(&exe)
+            .args(["drive-one", "--out", &cfg.out_dir, "--seed", &cfg.seed.to_string(), "--file", &file.to_string(), "--histories", &cfg.histories.to_string(),
+                   "--ops", &cfg.ops.to_string(), "--mode", &cfg.mode, "--nh", &cfg.nh.to_string()])
+            .stdout(std::process::Stdio::null())
+            .stderr(std::process::Stdio::null())
+            .spawn()
+            .expect("spawn drive-one");
+        children.push((file, c));
+    }
+    let mut crashed = vec![];
+    for (file, mut c) in children {
+        let st = c.wait().unwrap();
+        if !st.success() {
+            crashed.push(json!({"file":file,"status":format!("{st}")}));
+        }
+    }
+    // merge the per-file summaries
+    let mut op_counts: BTreeMap<String, u64> = BTreeMap::new();
+    let mut cls_counts: BTreeMap<String, u64> = BTreeMap::new();
+    let mut kinds: BTreeMap<String, u64> = BTreeMap::new();
+    let mut samples: Vec<Value> = vec![];
+    let (mut events, mut histories) = (0u64, 0u64);
+    for file in 0..cfg.files {
+        let Ok(t) = std::fs::read_to_string(format!("{}/drive_{:03}.summary.json", cfg.out_dir, file)) else { continue };
+        let v: Value = serde_json::from_str(&t).unwrap();
+        for (k, m) in [("ops", &mut op_counts), ("outcomes", &mut cls_counts), ("handle_states_observed", &mut kinds)] {
+            for (n, c) in v[k].as_object().unwrap() {
+                *m.entry(n.clone()).or_default() += c.as_u64().unwrap();
+            }
+        }
+        events += v["records"].as_u64().unwrap();
+        histories += v["histories"].as_u64().unwrap();
+        if samples.len() < 3 {
+            samples.extend(v["samples"].as_array().unwrap().iter().take(1).cloned());
+        }
+    }
+    let summary = json!({"histories":histories,"records":events,"ops":op_counts,"outcomes":cls_counts,"handle_states_observed":kinds,"samples":samples,
+        "mode":cfg.mode,"seed":cfg.seed,"aborted_children":crashed});
+    std::fs::write(format!("{}/drive_summary.json", cfg.out_dir), serde_json::to_string_pretty(&summary).unwrap()).unwrap();
+    println!("drive: files={} histories={} records={} aborted={}", cfg.files, histories, events, crashed.len());
+    0
+}
+
+pub fn run_one(cfg: DriveCfg, file: usize) -> i32 {
+    use std::io::Write;
     let stat = statics();
     let maxbufs = cfg.nh + 2;
     let mut op_counts: BTreeMap<String, u64> = BTreeMap::new();
     let mut cls_counts: BTreeMap<String, u64> = BTreeMap::new();
     let mut kinds: BTreeMap<String, u64> = BTreeMap::new();
     let mut samples: Vec<Value> = vec![];
-    let mut events = 0usize;
     let mut histories = 0usize;
-    for file in 0..cfg.files {
-        let mut w = TraceWriter::create(&format!("{}/drive_{:03}.ndjson", cfg.out_dir, file));
-        let mut r = Rng::new(cfg.seed.wrapping_mul(1000003).wrapping_add(file as u64));
-        for hi in 0..cfg.histories {
-            let mut pool = Pool::new(cfg.nh, maxbufs, &stat);
-            w.init(cfg.nh, maxbufs, &stat, &json!({"file":file,"history":hi,"seed":cfg.seed,"mode":cfg.mode}));
-            let mut sample_ops = vec![];
-            for _ in 0..cfg.ops {
-                let mut op = gen_op(&mut r, &pool, &cfg.mode);
-                let res = pool.exec(&mut op, r.below(7));
-                let o = pool.observe();
-                *op_counts.entry(op.op.clone()).or_default() += 1;
-                *cls_counts.entry(format!("{}{}", res.cls, if res.msg.is_empty() { String::new() } else { format!(":{}", res.msg.split(':').next().unwrap()) })).or_default() += 1;
-                for hd in o["hd"].as_array().unwrap() {
-                    let k = hd["k"].as_str().unwrap();
-                    let key = if k == "H" && hd["rc"].as_u64().unwrap() > 1 { "H-shared".to_string() } else { k.to_string() };
-                    *kinds.entry(key).or_default() += 1;
-                }
-                if samples.len() < 3 && sample_ops.len() < 12 {
-                    sample_ops.push(json!({"op":op.op,"e":op.e,"h":op.h,"g":op.g,"n":op.n,"s":String::from_utf8_lossy(&op.s),"f":op.f,"outcome":res.cls}));
-                }
-                w.call(&call_json(&op, &res), &o, &pool.std_texts());
+    let mut w = TraceWriter::create(&format!("{}/drive_{:03}.ndjson", cfg.out_dir, file));
+    let mut r = Rng::new(cfg.seed.wrapping_mul(1000003).wrapping_add(file as u64));
+    for hi in 0..cfg.histories {
+        let mut pool = Pool::new(cfg.nh, maxbufs, &stat);
+        w.init(cfg.nh, maxbufs, &stat, &json!({"file":file,"history":hi,"seed":cfg.seed,"mode":cfg.mode}));
+        let mut sample_ops = vec![];
+        for _ in 0..cfg.ops {
+            let mut op = gen_op(&mut r, &pool, &cfg.mode);
+            // announce the call before making it: if the code under test aborts, the trace says where
+            writeln!(w.out, "{}", json!({"ev":"pre","c":call_json(&op, &Default::default())})).unwrap();
+            w.flush();
+            let res = pool.exec(&mut op, r.below(7));
+            let o = pool.observe();
+            *op_counts.entry(op.op.clone()).or_default() += 1;
+            *cls_counts.entry(format!("{}{}", res.cls, if res.msg.is_empty() { String::new() } else { format!(":{}", res.msg.split(':').next().unwrap()) })).or_default() += 1;
+            for hd in o["hd"].as_array().unwrap() {
+                let k = hd["k"].as_str().unwrap();
+                let key = if k == "H" && hd["rc"].as_u64().unwrap() > 1 { "H-shared".to_string() } else { k.to_string() };
+                *kinds.entry(key).or_default() += 1;
             }
-            let errs = pool.finish();
-            w.end(&errs);
-            if samples.len() < 3 {
-                samples.push(json!(sample_ops));
+            if samples.len() < 3 && sample_ops.len() < 12 {
+                sample_ops.push(json!({"op":op.op,"e":op.e,"h":op.h,"g":op.g,"n":op.n,"s":String::from_utf8_lossy(&op.s),"f":op.f,"outcome":res.cls}));
             }
-            histories += 1;
+            w.call(&call_json(&op, &res), &o, &pool.std_texts());
         }
+        let errs = pool.finish();
+        w.end(&errs);
         w.flush();
-        events += w.events;
+        if samples.len() < 3 {
+            samples.push(json!(sample_ops));
+        }
+        histories += 1;
     }
-    let summary = json!({"histories":histories,"records":events,"ops":op_counts,"outcomes":cls_counts,"handle_states_observed":kinds,"samples":samples,
-        "mode":cfg.mode,"seed":cfg.seed});
-    std::fs::write(format!("{}/drive_summary.json", cfg.out_dir), serde_json::to_string_pretty(&summary).unwrap()).unwrap();
-    println!("drive: files={} histories={} records={}", cfg.files, histories, events);
+    let summary = json!({"histories":histories,"records":w.events,"ops":op_counts,"outcomes":cls_counts,"handle_states_observed":kinds,"samples":samples});
+    std::fs::write(format!("{}/drive_{:03}.summary.json", cfg.out_dir, file), serde_json::to_string(&summary).unwrap()).unwrap();
     0
 }
 
